@@ -1,2 +1,830 @@
-// Package c05 is the check for property C05 (see DESIGN.md section 3).
+// Package c05: lint reports exactly the style violations that are present.
+//
+// Bounded-exhaustive exploration of the real lint engine (bufcheck.Client.Lint over images built by
+// buf from in-memory workspaces):
+//
+//   - a clean-by-construction family of workspaces (family.go), rendered from Go structs with the
+//     line/column of every token known (spec.go), must produce zero annotations under every category,
+//     every single rule and all rules together, in every config version;
+//   - a catalogue of planting operators (plants.go), at least one per built-in lint rule, is applied
+//     at every applicable element (top level, nested 1 and 2, oneof members, extensions, second file,
+//     second package, proto2 / proto3 / editions files); for every configuration the annotations must be
+//     exactly: the planted rule (if selected) at the planted element's own token, plus the operator's
+//     declared, justified collateral -- nothing else.
+//
+// The oracle never calls buf's case conversion, version parsing or location code: expected rule IDs
+// are data next to each operator, expected positions come from our own renderer.
 package c05
+
+import (
+	"context"
+	"fmt"
+	"sort"
+	"strings"
+	"sync"
+	"time"
+
+	"buf.build/go/bufplugin/check"
+	"github.com/bufbuild/buf/private/bufpkg/bufconfig"
+	"github.com/bufbuild/buf/private/bufpkg/bufimage"
+	"github.com/bufbuild/bufverif/internal/bufx"
+	"github.com/bufbuild/bufverif/internal/evid"
+)
+
+func init() {
+	evid.Register(&evid.Check{ID: "C05", Level: "exploration", Run: run, QuickBudget: 85 * time.Second, ThoroughBudget: 14 * time.Minute})
+}
+
+// ---- rule tables (read from the real client: which rules and categories exist per version) ----------
+
+// RuleTable is what Client.AllRules says about one config version.
+type RuleTable struct {
+	Version    string
+	FileVer    bufconfig.FileVersion
+	Rules      map[string][]string // non-deprecated rule ID -> non-deprecated categories
+	Categories map[string][]string // category -> rule IDs
+	AllIDs     []string
+}
+
+var versions = []struct {
+	name string
+	fv   bufconfig.FileVersion
+}{
+	{"v1beta1", bufconfig.FileVersionV1Beta1},
+	{"v1", bufconfig.FileVersionV1},
+	{"v2", bufconfig.FileVersionV2},
+}
+
+func loadRuleTables(ctx context.Context) ([]*RuleTable, error) {
+	client, err := bufx.CheckClient()
+	if err != nil {
+		return nil, err
+	}
+	var out []*RuleTable
+	for _, v := range versions {
+		rules, err := client.AllRules(ctx, check.RuleTypeLint, v.fv)
+		if err != nil {
+			return nil, err
+		}
+		t := &RuleTable{Version: v.name, FileVer: v.fv, Rules: map[string][]string{}, Categories: map[string][]string{}}
+		for _, r := range rules {
+			if r.Deprecated() {
+				continue
+			}
+			t.Rules[r.ID()] = []string{}
+			for _, c := range r.Categories() {
+				if c.Deprecated() {
+					continue
+				}
+				t.Rules[r.ID()] = append(t.Rules[r.ID()], c.ID())
+				t.Categories[c.ID()] = append(t.Categories[c.ID()], r.ID())
+			}
+		}
+		t.AllIDs = bufx.SortedKeys(t.Rules)
+		for c := range t.Categories {
+			sort.Strings(t.Categories[c])
+		}
+		out = append(out, t)
+	}
+	return out, nil
+}
+
+// Config is one lint configuration.
+type Config struct {
+	Table  *RuleTable
+	Use    string          // a category, a rule ID, or "ALL"; suffix "+PV" keeps PROTOVALIDATE (see pvRule)
+	Active map[string]bool // rules selected
+	Opts   LintOpts
+	lint   bufconfig.LintConfig
+	yaml   string
+}
+
+func (c *Config) String() string { return c.Table.Version + "/" + c.Use }
+
+// pvRule is excluded (through `except`) from the bulk configurations: it costs ~100x any other rule
+// (a CEL environment per field) and is silent on schemas without protovalidate options. Configurations
+// named "<X>+PV" keep it; they are run on a declared subset of the cases.
+const pvRule = "PROTOVALIDATE"
+
+var configCache sync.Map
+
+func newConfig(t *RuleTable, use string, opts LintOpts) (*Config, error) {
+	key := fmt.Sprintf("%s|%s|%+v", t.Version, use, opts)
+	if c, ok := configCache.Load(key); ok {
+		return c.(*Config), nil
+	}
+	c := &Config{Table: t, Use: use, Active: map[string]bool{}, Opts: opts}
+	base := strings.TrimSuffix(use, "+PV")
+	withPV := base != use || base == pvRule
+	var useIDs []string
+	switch {
+	case base == "ALL":
+		useIDs = t.AllIDs
+	default:
+		useIDs = []string{base}
+	}
+	for _, id := range useIDs {
+		if id == "DEFAULT" {
+			id = "STANDARD" // DEFAULT is the deprecated name of STANDARD
+		}
+		if ids, ok := t.Categories[id]; ok {
+			for _, r := range ids {
+				c.Active[r] = true
+			}
+		} else if _, ok := t.Rules[id]; ok {
+			c.Active[id] = true
+		} else {
+			return nil, fmt.Errorf("unknown rule or category %q in %s", id, t.Version)
+		}
+	}
+	var sb strings.Builder
+	sb.WriteString("version: " + t.Version + "\nlint:\n  use:\n")
+	for _, id := range useIDs {
+		sb.WriteString("    - " + id + "\n")
+	}
+	if c.Active[pvRule] && !withPV {
+		delete(c.Active, pvRule)
+		sb.WriteString("  except:\n    - " + pvRule + "\n")
+	}
+	sb.WriteString(opts.YAML())
+	f, err := bufx.ReadBufYAML(sb.String())
+	if err != nil {
+		return nil, fmt.Errorf("buf.yaml %q: %w", sb.String(), err)
+	}
+	mcs := f.ModuleConfigs()
+	if len(mcs) != 1 {
+		return nil, fmt.Errorf("expected one module config, got %d", len(mcs))
+	}
+	c.lint = mcs[0].LintConfig()
+	c.yaml = sb.String()
+	configCache.Store(key, c)
+	return c, nil
+}
+
+// mainCategories are the categories the property statement is about.
+var mainCategories = []string{"MINIMAL", "BASIC", "DEFAULT", "STANDARD", "COMMENTS", "UNARY_RPC"}
+
+// ---- one case -----------------------------------------------------------------------------------------
+
+// CaseInfo is written into samples and violations.
+type CaseInfo struct {
+	Base     string            `json:"base"`
+	Op       string            `json:"op,omitempty"`
+	Rule     string            `json:"planted_rule,omitempty"`
+	Site     string            `json:"site,omitempty"`
+	Config   string            `json:"config,omitempty"`
+	Opts     LintOpts          `json:"lint_options"`
+	Expected []string          `json:"expected,omitempty"`
+	Got      []bufx.Annotation `json:"got,omitempty"`
+	Files    map[string]string `json:"files,omitempty"`
+	Note     string            `json:"note,omitempty"`
+}
+
+func buildImage(ctx context.Context, rd *Rendered) (bufimage.Image, error) {
+	image, err := bufx.BuildImage(ctx, rd.Files)
+	if err != nil {
+		return nil, err
+	}
+	if len(rd.ImportOnly) > 0 {
+		var paths []string
+		for p := range rd.Files {
+			if !rd.ImportOnly[p] {
+				paths = append(paths, p)
+			}
+		}
+		sort.Strings(paths)
+		return bufimage.ImageWithOnlyPaths(image, paths, nil)
+	}
+	return image, nil
+}
+
+func elemKindName(elem any) string {
+	switch elem.(type) {
+	case *File:
+		return "file"
+	case *PkgStmt:
+		return "package"
+	case *Import:
+		return "import"
+	case *FileOption:
+		return "file-option"
+	case *AliasOpt:
+		return "allow-alias-option"
+	case *Enum:
+		return "enum"
+	case *EnumValue:
+		return "enum-value"
+	case *Message:
+		return "message"
+	case *Field:
+		return "field"
+	case *Oneof:
+		return "oneof"
+	case *Service:
+		return "service"
+	case *Method:
+		return "rpc"
+	case *Extend:
+		return "extend"
+	}
+	return fmt.Sprintf("%T", elem)
+}
+
+// describePos names the token an annotation points at ("field.name", ...), or "no-token".
+func describePos(rd *Rendered, a bufx.Annotation) string {
+	var hits []string
+	for elem, an := range rd.Anchors {
+		if an.File != a.Path {
+			continue
+		}
+		for kind, p := range an.At {
+			if kind == "file" {
+				continue
+			}
+			if p.Line == a.StartLine && p.Col == a.StartCol {
+				hits = append(hits, elemKindName(elem)+"."+kind)
+			}
+		}
+	}
+	if len(hits) == 0 {
+		if isFileLevel(a) {
+			return "file"
+		}
+		return "no-token"
+	}
+	sort.Strings(hits)
+	return hits[0]
+}
+
+// isFileLevel: an annotation without position information. buf presents those as the empty span
+// 1:1-1:1 (any real token has end > start).
+func isFileLevel(a bufx.Annotation) bool {
+	return a.StartLine == a.EndLine && a.StartCol == a.EndCol && (a.StartLine == 1 && a.StartCol == 1 || a.StartLine == 0 && a.StartCol == 0)
+}
+
+func matches(rd *Rendered, e Expect, a bufx.Annotation) bool {
+	if a.Type != e.Rule {
+		return false
+	}
+	an := rd.Anchors[e.Elem]
+	if an == nil {
+		panic(fmt.Sprintf("c05: expectation on unrendered element %s (%s)", elemKindName(e.Elem), e.Rule))
+	}
+	if a.Path != an.File {
+		return false
+	}
+	if e.Kind == "file" {
+		return isFileLevel(a)
+	}
+	p, ok := an.At[e.Kind]
+	if !ok {
+		panic(fmt.Sprintf("c05: element %s has no anchor %q", elemKindName(e.Elem), e.Kind))
+	}
+	return a.StartLine == p.Line && a.StartCol == p.Col
+}
+
+func describeExpect(rd *Rendered, e Expect) string {
+	an := rd.Anchors[e.Elem]
+	req := ""
+	if !e.Required {
+		req = " (optional)"
+	}
+	if e.Kind == "file" {
+		return fmt.Sprintf("%s @ %s (file level)%s", e.Rule, an.File, req)
+	}
+	p := an.At[e.Kind]
+	return fmt.Sprintf("%s @ %s:%d:%d (%s.%s)%s", e.Rule, an.File, p.Line, p.Col, elemKindName(e.Elem), e.Kind, req)
+}
+
+// problem is one oracle failure.
+type problem struct {
+	sig, what string
+}
+
+// judge compares annotations with expectations under a configuration.
+// opLabel is "clean" or the operator name.
+func judge(rd *Rendered, expects []Expect, cfg *Config, anns []bufx.Annotation, opLabel string) (problems []problem, fired map[string]int) {
+	fired = map[string]int{}
+	used := make([]bool, len(expects))
+	for _, a := range anns {
+		found := false
+		ruleExpected := false
+		for i, e := range expects {
+			if !cfg.Active[e.Rule] {
+				continue
+			}
+			if e.Rule == a.Type {
+				ruleExpected = true
+			}
+			if matches(rd, e, a) {
+				used[i] = true
+				found = true
+			}
+		}
+		if found {
+			continue
+		}
+		where := describePos(rd, a)
+		switch {
+		case !cfg.Active[a.Type]:
+			problems = append(problems, problem{
+				fmt.Sprintf("unselected-rule/%s", a.Type),
+				fmt.Sprintf("annotation of rule %s although the configuration %s does not select it: %s:%d:%d %s", a.Type, cfg, a.Path, a.StartLine, a.StartCol, a.Message)})
+		case opLabel == "clean":
+			problems = append(problems, problem{
+				fmt.Sprintf("clean/%s/%s", a.Type, where),
+				fmt.Sprintf("clean-by-construction workspace got %s at %s:%d:%d (%s): %s", a.Type, a.Path, a.StartLine, a.StartCol, where, a.Message)})
+		case ruleExpected:
+			problems = append(problems, problem{
+				fmt.Sprintf("misplaced/%s/%s/reported-at-%s", a.Type, opLabel, where),
+				fmt.Sprintf("%s reported at %s:%d:%d (%s), which is none of the planted element's expected tokens: %s", a.Type, a.Path, a.StartLine, a.StartCol, where, a.Message)})
+		default:
+			problems = append(problems, problem{
+				fmt.Sprintf("unrelated/%s/%s", a.Type, opLabel),
+				fmt.Sprintf("annotation of unrelated rule %s at %s:%d:%d (%s) after planting with %s: %s", a.Type, a.Path, a.StartLine, a.StartCol, where, opLabel, a.Message)})
+		}
+	}
+	for i, e := range expects {
+		if !cfg.Active[e.Rule] {
+			continue
+		}
+		if used[i] {
+			fired[e.Rule]++
+			continue
+		}
+		if e.Required {
+			problems = append(problems, problem{
+				fmt.Sprintf("missing/%s/%s/%s.%s", e.Rule, opLabel, elemKindName(e.Elem), e.Kind),
+				fmt.Sprintf("expected annotation not reported: %s", describeExpect(rd, e))})
+		}
+	}
+	return problems, fired
+}
+
+// ---- the run ------------------------------------------------------------------------------------------
+
+type stats struct {
+	mu                           sync.Mutex
+	firedByRule                  map[string]int // rule -> expectations met (rule selected)
+	primaryByRule                map[string]int // rule -> plant evaluations where it was the planted, selected rule
+	opsByRule                    map[string]map[string]bool
+	sitesByRule                  map[string]map[string]bool
+	cleanEvals                   int
+	plantSelected                int // evaluations where the planted rule was selected
+	plantSilent                  int // evaluations where the planted rule was not selected ("nothing for unrelated rules")
+	collateral                   int // met expectations of a rule other than the planted one
+	buildFailures                int
+	cliCases, cliWithAnnotations int
+}
+
+func newStats() *stats {
+	return &stats{firedByRule: map[string]int{}, primaryByRule: map[string]int{}, opsByRule: map[string]map[string]bool{}, sitesByRule: map[string]map[string]bool{}}
+}
+
+// usesFor lists the `use` values under which a case is linted.
+//
+//	full: all rules, each main category (thorough: every category), the planted rule alone
+//	lite: all rules in v2 and v1beta1; in v2 also the planted rule alone
+//
+// pv adds configurations that keep PROTOVALIDATE: 0 none; 1: v2 ALL+PV; 2: ALL+PV and the rule alone;
+// 3: ALL+PV, STANDARD+PV and the rule alone.
+func (t *RuleTable) usesFor(rule string, quick, lite bool, pv int) []string {
+	var uses []string
+	if !lite || t.Version != "v1" {
+		uses = append(uses, "ALL")
+	}
+	if !lite {
+		var cats []string
+		for _, c := range mainCategories {
+			if _, ok := t.Categories[c]; ok || (c == "DEFAULT" && !quick) {
+				cats = append(cats, c)
+			}
+		}
+		if !quick {
+			var rest []string
+			for c := range t.Categories {
+				isMain := false
+				for _, m := range mainCategories {
+					if c == m {
+						isMain = true
+					}
+				}
+				if !isMain {
+					rest = append(rest, c)
+				}
+			}
+			sort.Strings(rest)
+			cats = append(cats, rest...)
+		}
+		uses = append(uses, cats...)
+	}
+	if rule != "" && rule != pvRule && (!lite || t.Version == "v2") {
+		if _, ok := t.Rules[rule]; ok {
+			uses = append(uses, rule)
+		}
+	}
+	if _, ok := t.Rules[pvRule]; ok && pv > 0 {
+		if pv >= 2 || t.Version == "v2" {
+			uses = append(uses, "ALL+PV")
+		}
+		if pv >= 2 {
+			uses = append(uses, pvRule)
+		}
+		if pv >= 3 {
+			uses = append(uses, "STANDARD+PV")
+		}
+	}
+	return uses
+}
+
+func expectStrings(rd *Rendered, ex []Expect) []string {
+	var out []string
+	for _, e := range ex {
+		out = append(out, describeExpect(rd, e))
+	}
+	return out
+}
+
+type runner struct {
+	r      *evid.Run
+	ctx    context.Context
+	tables []*RuleTable
+	st     *stats
+}
+
+func (rn *runner) lintAndJudge(info CaseInfo, rd *Rendered, image bufimage.Image, expects []Expect, cfg *Config, opLabel string) map[string]int {
+	anns, err := bufx.Lint(rn.ctx, cfg.lint, image)
+	rn.r.Eval(1)
+	if err != nil {
+		rn.r.Incomplete(fmt.Sprintf("lint returned a non-annotation error for %s %s %s: %v", info.Base, opLabel, cfg, err))
+		return nil
+	}
+	problems, fired := judge(rd, expects, cfg, anns, opLabel)
+	for _, p := range problems {
+		ci := info
+		ci.Config = cfg.String()
+		ci.Opts = cfg.Opts
+		ci.Expected = expectStrings(rd, expects)
+		ci.Got = anns
+		ci.Files = rd.Files
+		rn.r.Violate(p.sig, p.what, ci)
+	}
+	return fired
+}
+
+// runClean lints one clean workspace under every configuration.
+func (rn *runner) runClean(p Params, singleRules bool, pv int) {
+	spec := Build(p)
+	rd := spec.Render()
+	info := CaseInfo{Base: p.Key()}
+	image, err := buildImage(rn.ctx, rd)
+	if err != nil {
+		rn.r.Incomplete(fmt.Sprintf("clean workspace %s does not build: %v", p.Key(), err))
+		rn.st.mu.Lock()
+		rn.st.buildFailures++
+		rn.st.mu.Unlock()
+		return
+	}
+	n := 0
+	for _, t := range rn.tables {
+		uses := t.usesFor("", rn.r.Quick(), false, pv)
+		if singleRules {
+			for _, id := range t.AllIDs {
+				if id != pvRule {
+					uses = append(uses, id)
+				}
+			}
+		}
+		for _, use := range uses {
+			cfg, err := newConfig(t, use, p.Opts())
+			if err != nil {
+				rn.r.Incomplete(err.Error())
+				continue
+			}
+			rn.lintAndJudge(info, rd, image, nil, cfg, "clean")
+			n++
+		}
+	}
+	rn.r.Distinct(workspaceKey(rd, p.Opts()))
+	rn.st.mu.Lock()
+	rn.st.cleanEvals += n
+	rn.st.mu.Unlock()
+}
+
+// runPlant applies one plant to a fresh clean workspace and lints it under every configuration.
+func (rn *runner) runPlant(p Params, pl Plant, idx int, lite bool, pv int) {
+	spec := Build(p)
+	expects := pl.Apply(spec)
+	rd := spec.Render()
+	opts := p.Opts()
+	if pl.Opts != nil {
+		opts = *pl.Opts
+	}
+	info := CaseInfo{Base: p.Key(), Op: pl.Op, Rule: pl.Rule, Site: pl.Site, Opts: opts}
+	image, err := buildImage(rn.ctx, rd)
+	if err != nil {
+		ci := info
+		ci.Files = rd.Files
+		ci.Note = err.Error()
+		rn.r.Incomplete(fmt.Sprintf("planted workspace does not build (harness): base=%s op=%s site=%s: %v", p.Key(), pl.Op, pl.Site, oneLine(err.Error())))
+		rn.st.mu.Lock()
+		rn.st.buildFailures++
+		rn.st.mu.Unlock()
+		return
+	}
+	for _, t := range rn.tables {
+		for _, use := range t.usesFor(pl.Rule, rn.r.Quick(), lite, pv) {
+			cfg, err := newConfig(t, use, opts)
+			if err != nil {
+				rn.r.Incomplete(err.Error())
+				continue
+			}
+			fired := rn.lintAndJudge(info, rd, image, expects, cfg, pl.Op)
+			rn.st.mu.Lock()
+			if cfg.Active[pl.Rule] {
+				rn.st.plantSelected++
+				rn.st.primaryByRule[pl.Rule]++
+				if rn.st.opsByRule[pl.Rule] == nil {
+					rn.st.opsByRule[pl.Rule] = map[string]bool{}
+					rn.st.sitesByRule[pl.Rule] = map[string]bool{}
+				}
+				rn.st.opsByRule[pl.Rule][pl.Op] = true
+				rn.st.sitesByRule[pl.Rule][pl.Site] = true
+			} else {
+				rn.st.plantSilent++
+			}
+			for rule, n := range fired {
+				rn.st.firedByRule[rule] += n
+				if rule != pl.Rule {
+					rn.st.collateral += n
+				}
+			}
+			rn.st.mu.Unlock()
+		}
+	}
+	rn.r.Distinct(workspaceKey(rd, opts))
+	rn.r.SampleEvery(idx, 1499, func() any {
+		ci := info
+		ci.Expected = expectStrings(rd, expects)
+		return ci
+	})
+}
+
+// workspaceKey identifies a case by what is linted: the workspace text and the rule options.
+func workspaceKey(rd *Rendered, opts LintOpts) string {
+	var sb strings.Builder
+	for _, path := range bufx.SortedKeys(rd.Files) {
+		if rd.ImportOnly[path] {
+			continue
+		}
+		sb.WriteString(path + "\x00" + rd.Files[path] + "\x00")
+	}
+	fmt.Fprintf(&sb, "%+v", opts)
+	return sb.String()
+}
+
+func oneLine(s string) string {
+	s = strings.ReplaceAll(s, "\n", " | ")
+	if len(s) > 300 {
+		s = s[:300] + "..."
+	}
+	return s
+}
+
+// cleanFamily lists the members of the clean family to lint.
+func cleanFamily(quick bool) []Params {
+	var out []Params
+	seen := map[string]bool{}
+	add := func(p Params) {
+		if !seen[p.Key()] {
+			seen[p.Key()] = true
+			out = append(out, p)
+		}
+	}
+	syntaxes := []string{"proto3", "proto2", "editions"}
+	if quick {
+		// palette x syntax x doc style, all else default; then every other dimension varied on its own
+		// and all together
+		for pi := range Palettes {
+			for _, sy := range syntaxes {
+				for _, doc := range GoodDocs {
+					p := DefaultParams()
+					p.Palette, p.SyntaxA, p.Doc = pi, sy, doc
+					add(p)
+				}
+			}
+		}
+		for pi := range Palettes {
+			for _, ver := range Versions {
+				p := DefaultParams()
+				p.Palette, p.Version = pi, ver
+				add(p)
+			}
+			for empty := 0; empty < 4; empty++ {
+				for _, custom := range []bool{false, true} {
+					for _, prr := range []bool{false, true} {
+						p := DefaultParams()
+						p.Palette, p.Empty, p.Custom, p.PrefixRR = pi, empty, custom, prr
+						p.FileOpts, p.Body, p.Header = custom, prr, empty%2 == 1
+						add(p)
+					}
+				}
+			}
+		}
+		return out
+	}
+	for pi := range Palettes {
+		for _, sy := range syntaxes {
+			for _, doc := range GoodDocs {
+				for empty := 0; empty < 4; empty++ {
+					for _, custom := range []bool{false, true} {
+						for _, prr := range []bool{false, true} {
+							for _, fo := range []bool{false, true} {
+								p := DefaultParams()
+								p.Palette, p.SyntaxA, p.Doc, p.Empty, p.Custom, p.PrefixRR, p.FileOpts = pi, sy, doc, empty, custom, prr, fo
+								p.Body, p.Header = fo != prr, fo == custom
+								add(p)
+							}
+						}
+					}
+				}
+			}
+			for _, ver := range Versions {
+				for _, leaves := range []bool{true, false} {
+					p := DefaultParams()
+					p.Palette, p.SyntaxA, p.Version, p.Leaves = pi, sy, ver, leaves
+					add(p)
+				}
+			}
+		}
+	}
+	return out
+}
+
+// plantBases lists the family members on which the whole catalogue is applied.
+func plantBases(quick bool) []Params {
+	mk := func(pal int, sy, doc, ver string, fo, custom bool, empty int, prr, body, hdr bool) Params {
+		return Params{Palette: pal, SyntaxA: sy, Doc: doc, Version: ver, FileOpts: fo, Custom: custom, Empty: empty, PrefixRR: prr, Body: body, Header: hdr, Leaves: true}
+	}
+	bases := []Params{
+		mk(0, "proto3", "line", "v1", true, false, 0, false, false, false),
+		mk(1, "proto2", "block", "v2", true, true, 3, true, true, true),
+		mk(2, "editions", "multi", "v1beta1", false, false, 1, false, true, false),
+	}
+	if !quick {
+		bases = append(bases,
+			mk(0, "proto2", "docblock", "v1p1beta1", true, true, 2, true, false, true),
+			mk(1, "editions", "leadblank", "v1", true, false, 0, true, true, false),
+			mk(2, "proto3", "line", "v10", true, true, 0, false, false, true),
+			mk(0, "editions", "block", "v1test", false, true, 3, false, true, true),
+			mk(2, "proto2", "line", "v2", true, false, 2, true, false, false),
+		)
+	}
+	return bases
+}
+
+func run(r *evid.Run) {
+	ctx := context.Background()
+	r.Rule("clean part: every member of a parameterised clean-by-construction workspace family (name palette x syntax x comment style x package version x rule-option-dependent shapes) x every config version x every category / single rule / all rules; " +
+		"planted part: every (operator, site) of the planting catalogue (>=1 operator per built-in lint rule; sites = every message/enum/field/oneof/enum value/service/RPC/import/package/file of the workspace incl. nested depth 1-2, oneof members, extensions, 2nd file, 2nd package, proto2/proto3/editions files) on each plant base x config version x {all rules, each category, the planted rule alone}. " +
+		"A distinct non-trivial case is one clean family member or one (base, operator, site) triple; every one of them is a different workspace text.")
+	r.Assume("expected rule IDs and collateral sets are data next to each operator, reviewed against the rules' Purpose strings; which token of the offending element is annotated is fixed per rule (name token for naming rules, declaration start for comment/streaming/uniqueness/package/import/option rules, type token for request/response naming, number token for ENUM_FIRST_VALUE_ZERO)")
+	r.Assume("rule and category membership per config version is read from Client.AllRules (rule selection itself is property C06)")
+	r.Assume("files use spaces only (no tabs), ASCII identifiers, LF line ends; comment-ignore directives and ignore paths are out of scope (C06); custom plugins are out of scope")
+
+	tables, err := loadRuleTables(ctx)
+	if err != nil {
+		r.Incomplete("cannot load rule tables: " + err.Error())
+		return
+	}
+	rn := &runner{r: r, ctx: ctx, tables: tables, st: newStats()}
+
+	// ---- clean part
+	family := cleanFamily(r.Quick())
+	r.ParallelFor(len(family), 0, func(i int) {
+		// every single rule on its own: every 7th member (quick) / every 4th member (thorough);
+		// PROTOVALIDATE-including configurations: every 8th / every 6th member
+		single, pv := i%4 == 0, 0
+		if r.Quick() {
+			single = i%7 == 0
+			if i%8 == 0 {
+				pv = 3
+			}
+		} else if i%6 == 0 {
+			pv = 3
+		}
+		rn.runClean(family[i], single, pv)
+	})
+	r.Set("clean_family_members", len(family))
+
+	// ---- planted part
+	var jobs []plantJob
+	bases := plantBases(r.Quick())
+	opSet := map[string]bool{}
+	for bi, b := range bases {
+		for _, pl := range Plants(b) {
+			if r.Quick() && bi > 0 && strings.HasPrefix(pl.Op, "comment-") && !strings.HasSuffix(pl.Op, "/none") && !strings.HasSuffix(pl.Op, "/detached") {
+				continue // quick: the other comment shapes are planted on the first base only
+			}
+			jobs = append(jobs, plantJob{b, pl})
+			opSet[pl.Op] = true
+		}
+		if bi < 3 {
+			seenSite := map[string]bool{}
+			for _, j := range protovalidateJobs(b) {
+				if r.Quick() {
+					// quick: first base only, one instance per (operator, site role)
+					if bi > 0 || seenSite[j.pl.Op+"|"+j.pl.Site] {
+						continue
+					}
+					seenSite[j.pl.Op+"|"+j.pl.Site] = true
+				}
+				jobs = append(jobs, j)
+				opSet[j.pl.Op] = true
+			}
+		}
+	}
+	// Configuration menus. Quick: the full menu on the first base, the lite menu on the others.
+	// PROTOVALIDATE-including configurations: PROTOVALIDATE plants (level 2 quick / 3 thorough); the first
+	// instance of every operator on the first base (level 1 quick / 3 thorough); the first instance of
+	// every planted rule on the other bases (level 1).
+	pv := make([]int, len(jobs))
+	lite := make([]bool, len(jobs))
+	seen := map[string]bool{}
+	for i, j := range jobs {
+		first := j.p.Key() == bases[0].Key()
+		lite[i] = r.Quick() && !first
+		key := j.pl.Rule + "|" + j.p.Key()
+		if first {
+			key = j.pl.Op
+		}
+		switch {
+		case j.pl.Heavy && r.Quick():
+			pv[i], lite[i] = 2, true
+		case j.pl.Heavy:
+			pv[i] = 3
+		case !seen[key]:
+			seen[key] = true
+			pv[i] = 1
+			if first && !r.Quick() {
+				pv[i] = 3
+			}
+		}
+	}
+	r.ParallelFor(len(jobs), 0, func(i int) {
+		rn.runPlant(jobs[i].p, jobs[i].pl, i, lite[i], pv[i])
+	})
+
+	// ---- CLI binding
+	rn.cliPart(bases[0], Plants(bases[0]))
+
+	// ---- coverage facts and vacuity guards
+	st := rn.st
+	r.Set("cli_cases", st.cliCases)
+	r.Set("cli_cases_with_annotations", st.cliWithAnnotations)
+	if st.cliWithAnnotations == 0 {
+		r.Incomplete("the CLI binding never saw an annotation")
+	}
+	r.Set("plant_bases", len(bases))
+	r.Set("plant_instances", len(jobs))
+	r.Set("operators", len(opSet))
+	r.Set("clean_evaluations", st.cleanEvals)
+	r.Set("planted_evaluations_rule_selected", st.plantSelected)
+	r.Set("planted_evaluations_rule_not_selected", st.plantSilent)
+	r.Set("collateral_expectations_met", st.collateral)
+	r.Set("workspaces_not_building", st.buildFailures)
+	perRule := map[string]any{}
+	allRules := map[string]bool{}
+	for _, t := range tables {
+		for id := range t.Rules {
+			allRules[id] = true
+		}
+	}
+	for id := range allRules {
+		perRule[id] = map[string]int{
+			"evaluations_selected": st.primaryByRule[id],
+			"expectations_met":     st.firedByRule[id],
+			"operators":            len(st.opsByRule[id]),
+			"site_roles":           len(st.sitesByRule[id]),
+		}
+		if st.primaryByRule[id] == 0 {
+			r.Incomplete("no planted evaluation for built-in lint rule " + id)
+		}
+	}
+	r.Set("per_rule", perRule)
+	r.Set("builtin_lint_rules", len(allRules))
+	vs := map[string]int{}
+	for _, t := range tables {
+		vs[t.Version] = len(t.Rules)
+	}
+	r.Set("rules_per_version", vs)
+	if st.cleanEvals == 0 || st.plantSelected == 0 || st.plantSilent == 0 {
+		r.Incomplete("a clause of the property was never exercised")
+	}
+}
+
+// jobs for PROTOVALIDATE are built in protovalidate.go
+type plantJob = struct {
+	p  Params
+	pl Plant
+}
